@@ -56,7 +56,9 @@ Definition spec_check (c : case) : option bool :=
   else if k =? 4 then
     if n <? 2 then None
     else Some ((Z.of_nat (length out) =? n) && all_finite c &&
-               forallb (fun x => 0 <=? x) out && nondecreasing 0 out &&
+               (* differences of incomplete gamma ratios of the order of 1e-16 carry rounding noise: absolute
+                  tolerance 1e-12 on sign and order *)
+               forallb (fun x => - (ONE / 1000000000000) <=? x) out && nondecreasing (ONE / 1000000000000) out &&
                (Z.abs (zsum out - n * ONE) * 1000000 <=? n * ONE))
   else if k =? 5 then
     Some (Nat.eqb (length out) (length (k_xs c)) && all_finite c &&
